@@ -28,6 +28,13 @@ type StructV struct {
 
 type TupleV []Value
 
+// ColV: one scalar column of a slice (a row of one heap plus an offset); what a
+// spec-function parameter of type []int / []string / []real / []bool binds to.
+type ColV struct {
+	Row, Off, Len string
+	Sort          string
+}
+
 type IfaceV struct {
 	Nil string // Bool term
 	Dyn Value  // dynamic value when known
